@@ -34,8 +34,8 @@ from core import Case
 PID = "C10"
 LEAN_MODULES = ["MirProofs.Props.C10", "MirProofs.Props.C10_Regex", "MirProofs.Props.C10_Gen", "MirProofs.Props.C10_GenFns"]
 # C10_Gen: pitch_class_to_semitone / scale_degree_to_semitone REGENERATED from the source = the hand-written models
-# C10_GenFns: validate_chord_label / split / join / encode / reduce_extended_quality / scale_degree_to_bitmap / quality_to_bitmap /
-# rotate_bitmap_to_root REGENERATED from the source (part `chordfns`) = the hand-written models
+# C10_GenFns: validate_chord_label / split / join / encode / reduce_extended_quality / scale_degree_to_bitmap / quality_to_bitmap
+# REGENERATED from the source (part `chordfns`) = the hand-written models
 TRANSLATOR_PARTS = ["tables", "regex", "scalars_chord", "chordfns"]
 RULE = ("re_match: the label streams below + every string of length <= 3 (quick) / 4 (thorough) over 19 characters + "
         "labels with newline / NUL / CR / U+0085 / U+2028 / non-ASCII look-alikes appended, prepended or embedded + accidental "
@@ -752,9 +752,9 @@ def _gen_join_case(root, q, e, bass, tag):
 
 def suite_gen_chordfn(rng, tier, shard, nshards):
     """driver op `gen.chordfn`: the GENERATED definitions of validate_chord_label / split / join / encode /
-    reduce_extended_quality / scale_degree_to_bitmap / quality_to_bitmap / rotate_bitmap_to_root against the real
-    functions, on the label streams of the other suites (valid, single-fault, long accidental runs) and on arbitrary
-    strings for the primitives"""
+    reduce_extended_quality / scale_degree_to_bitmap / quality_to_bitmap against the real functions, on the label streams
+    of the other suites (valid, single-fault, long accidental runs) and on arbitrary strings for the primitives
+    (rotate_bitmap_to_root, same generated file: suite gen_chordfn.rotate of C11)"""
     fixed = ["N", "X", "C", "N\n", "X\n", "C\n", "C:maj\n", "C/5\n", "C:(3)\n", "", "C:(*3)", "C:maj(*3,3)", "C:maj(3,3)",
              "C:aug7", "C:maj11", "C:maj/2", "C/b1", "C/1", "C:maj/1", "Cbbbbbbbbbbbbb", "C/bbbbbbbbbbbbbb1", "B#:13(*1)/13",
              "C:1(*1)", "C:5(*1,*5)/5", "C:maj(bbbbbbbbbbbbb1)", "C:(bbbbbbbbbbbbbb3)", "C:maj(*bbbbbbbbbbbbb1)",
@@ -818,14 +818,6 @@ def suite_gen_chordfn(rng, tier, shard, nshards):
         yield Case("gen.chordfn", ["reduce_extended_quality", s],
                    lambda s=s: (lambda q, e: [q, sorted(e)])(*chord.reduce_extended_quality(s)),
                    tag="gen reduce_extended_quality", info=info, post=_post_redux)
-    for _ in range(1200 if tier == "thorough" else 150):
-        k = rng.randrange(5)
-        ln = 12 if k < 3 else rng.choice([0, 1, 5, 11, 13, 24])
-        bm = [rng.choice([0, 0, 1, 1, -1, 2]) if k != 0 else rng.randint(0, 1) for _ in range(ln)]
-        root = rng.randint(0, 11) if k < 2 else rng.randint(-30, 30)
-        yield Case("gen.chordfn", ["rotate_bitmap_to_root", bm, root],
-                   lambda bm=bm, root=root: chord.rotate_bitmap_to_root(np.array(bm, dtype=np.int64), root),
-                   tag="gen rotate_bitmap_to_root", info={"bitmap": bm, "root": root})
 
 
 SUITES = {"re_match": suite_re_match, "rx": suite_rx, "accept": suite_accept, "encode": suite_encode, "join": suite_join, "primitives": suite_primitives,
